@@ -37,8 +37,10 @@ EXPLANATION = ('Coq: (a) the well-formedness checker run on every real pass outp
                'refutations (accepted yet ill-formed: phi input from a non-predecessor, stale uses, unop operand type, value '
                'on two phi inputs dominating only the first); c03_verifier_fixed_sound — with the four repairs '
                'fixes/C03-verifier-*.diff no bookkeeping hypothesis is needed and the exact phi-input clause, phi dominance '
-               'on every input and Unop typing follow. Completeness (well-formed => accepted) is NOT proved (correspondence '
-               'only). block/value ids, target existence and Param/Glob ranges are importer invariants, CopyBlob/callee '
+               'on every input and Unop typing follow. Completeness: c03_verifier_complete_partial — a function WITHOUT phi instructions that the '
+               'verified checker accepts is accepted by the verifier model (every configuration, derived bookkeeping); with '
+               'repr_ok and the repaired verifier acceptance conversely gives wf_function (c03_verifier_iff_wf_partial); for '
+               'functions with phis completeness rests on the correspondence incl. well-formed-but-unusual shapes. block/value ids, target existence and Param/Glob ranges are importer invariants, CopyBlob/callee '
                'pointer types are only enforced by the ir.py constructors. (c) hand model of the bookkeeping mutators: '
                'refutations for the code as found; for the repaired code UNBOUNDED theorems that replace_use (plain, call, '
                'phi, repeated operands), Value.replace_by, Phi.set_incoming and Phi.del_incoming preserve stored uses = '
@@ -75,7 +77,7 @@ MANIFEST = {
     'technique': 'verified validator + hand models + bounded exhaustive vm_compute'}
 
 COQ_PROOFS = ['Proofs/C03_wf.vo', 'Proofs/C03_verify.vo', 'Proofs/C03_store.vo', 'Proofs/C03_store_inv.vo',
-              'Proofs/C03_refs_inv.vo', 'Lib/Val.vo']
+              'Proofs/C03_refs_inv.vo', 'Proofs/C03_complete.vo', 'Lib/Val.vo']
 FXKEYS = ['fx_replace_use', 'fx_call', 'fx_phi_replace', 'fx_phi_incoming', 'fx_jump_delete', 'fx_setter', 'fx_rfb']
 FX_KNOWN = ('fx_setter', 'fx_rfb')     # defects recorded as known findings (probed, not reported twice)
 FXDIFF = {'fx_replace_use': 'C03-replace-use-double', 'fx_call': 'C03-call-replace-use-repeated-args',
@@ -572,11 +574,66 @@ def verifier_level(ctx, O, irimport, irgen):
             dist[key] = dist.get(key, 0) + 1
             if v == 'ok' and w is not None:
                 gaps.setdefault((kind, w.split(':')[1]), (base + k, w))
+            if w is None and v != 'ok' and kind is None:
+                ctx.violation({'fn': 'verify_module', 'what': 'rejects well-formed IR (%s)' % v,
+                               'args': ['irgen:%d:2' % (base + k)], 'expected': 'accepted', 'actual': 'raises'})
             term = '(verify_module_x (%s) (%s) %s, wf_modul_b (%s))' % (
                 vxt, irimport.py_to_coq(c), O.vstates_to_coq(O.vstates(m)), irimport.py_to_coq(c))
             exp = (OkV(None) if v == 'ok' else Diag if v == 'diag' else Internal, w is None)
             cases.append((term, exp))
             meta.append((base + k, kind, v, w))
+    # well-formed but unusual shapes (critical edge, phi with identical inputs, values used only in phis,
+    # a block jumping to itself): completeness probe of the REAL verifier, also part of the correspondence
+    def unusual():
+        from ppci import ir
+        m = ir.Module('unusual')
+        f = ir.Function('f', ir.Binding.GLOBAL, ir.i32)
+        m.add_function(f)
+        x = ir.Parameter('x', ir.i32)
+        f.add_parameter(x)
+        e, a, j, s_, d = [f.add_block(ir.Block(n)) for n in ('entry', 'a', 'j', 's', 'd')]
+        f.entry = e
+        c0 = ir.Const(0, 'c0', ir.i32)
+        c1 = ir.Const(1, 'c1', ir.i32)
+        v = ir.Binop(x, '+', c1, 'v', ir.i32)           # used by a phi only
+        for i in (c0, c1, v):
+            e.add_instruction(i)
+        e.add_instruction(ir.CJump(x, '==', c0, a, j))   # entry -> j is a critical edge
+        a.add_instruction(ir.Jump(j))
+        p = ir.Phi('p', ir.i32)
+        q = ir.Phi('q', ir.i32)
+        j.add_instruction(p)
+        j.add_instruction(q)
+        p.set_incoming(e, c1)
+        p.set_incoming(a, c1)                            # identical inputs
+        q.set_incoming(e, v)
+        q.set_incoming(a, c0)
+        j.add_instruction(ir.Jump(s_))
+        k = ir.Phi('k', ir.i32)
+        s_.add_instruction(k)
+        k2 = ir.Binop(k, '-', c1, 'k2', ir.i32)
+        s_.add_instruction(k2)
+        s_.add_instruction(ir.CJump(k2, '!=', c0, s_, d))  # block jumping to itself
+        k.set_incoming(j, p)
+        k.set_incoming(s_, k2)
+        d.add_instruction(ir.Return(q))
+        return m
+    extra = [('unusual', unusual())]
+    for k in range(6 if ctx.quick() else 40):
+        extra.append(('irgen-loops', irgen.gen_module(random.Random(base + 1000 + k), 3,
+                                                      ('diamond', 'loop', 'selfloop', 'dupedge'))))
+    for kind, m in extra:
+        cw = irimport.module_to_py(m, True)
+        v, w = O.real_verify(m), O.pywf(cw)
+        dist['%s:%s:%s' % (kind, v, 'wf' if w is None else w)] = dist.get('%s:%s:%s' % (kind, v, 'wf' if w is None else w), 0) + 1
+        cases.append(('(verify_module_x (%s) (%s) %s, wf_modul_b (%s))' % (
+            vxt, irimport.py_to_coq(cw), O.vstates_to_coq(O.vstates(m)), irimport.py_to_coq(cw)),
+            (OkV(None) if v == 'ok' else Diag if v == 'diag' else Internal, w is None)))
+        meta.append((kind, None, v, w))
+        if w is None and v != 'ok' and not O.bookkeeping(m):
+            ctx.violation({'fn': 'verify_module', 'what': 'rejects well-formed IR (%s)' % v, 'args': [kind],
+                           'expected': 'accepted: IRWf.wf_modul_b holds and the bookkeeping is consistent',
+                           'actual': 'verify_module raises'})
     # hand-made gap witnesses (Proofs/C03_verify.v w1..w4), always part of the correspondence
     GAPNAME = {'vx_phi_exact': 'extra_phi_input', 'vx_unop': 'unop_type', 'vx_uses': 'stale_uses',
                'vx_phi_all': 'phi_repeated_value'}
